@@ -70,6 +70,12 @@ CHECKS['C07'] = dict(
    text='PARTIAL (one probe world, see level_note). For every handle value: the generated Resource<T> item drops an owned handle exactly once with its Rust value and never uses or drops a handle that was given away; generated import glue transfers an owned argument exactly once without dropping it, never drops a borrowed argument or method receiver, and an owned result (function or constructor) is dropped exactly once when its value is dropped; generated export glue hands the user the owned handle (dropped exactly once with its value), transfers the handle of a newly created exported resource without dropping it, reaches the same Rust value through an owned handle and through a borrow, and destroys it exactly once in the destructor export.',
    note='Proof for the generated code of kani/rustgen_res/probe.wit only (the generator is real and rebuilt each run; the world is fixed): not a statement about every world. Not covered: async, handles nested in aggregates, future/stream/error-context handles, host resource tables. Rule R1 (native import stand-ins call the mock host) is the only edit to generated text. 64-bit target: trampolines that take a borrow as core i32 are bypassed (pointer truncation).')
 
+CHECKS['C22'] = dict(
+   engine='kani', category='other', design_ref='DESIGN.md §9.7 C22',
+   technique='contract harnesses on the real export executor (Kani/CBMC, in-crate): exactly one executor step (TaskState::callback, start_task, callback, drop, waitable_register/unregister) per harness from directly constructed pre-states, symbolic event codes',
+   text='BOUNDED contract checking, not a proof (level "other"): at most one registered waitable, scripted Rust work, one step per harness over a sampled set of abstract states. Per step: EXIT exactly when no Rust work and no registered waitable remain; WAIT on the task\'s own waitable set while something is pending and not woken; YIELD when woken during polling (after polling the set and delivering what it reports); an event is delivered to its callback exactly once, after the waitable has left every set, with the host\'s code, and the work is polled again; cancellation exits without polling; the state slot is empty while a callback runs, holds the same state afterwards unless EXIT, and the task with its destructors is released exactly once on exit or cancellation with the task installed; CallbackCode encoding for all set ids; register/unregister keep the task map and the host set in step.',
+   note='BOUNDED: <= 1 waitable, two-slot map model kept in a static under the model checker (BTreeMap trusted), one task per harness. Not covered: block_on, spawned work (async-spawn), TaskCancelOnDrop, multi-callback histories beyond the inductive reading of the single steps. Trusted: mock host.')
+
 NOT_APPLICABLE = {
  'C01': 'shared ABI generator is generic over Bindgen/Resolve with closures and iterator adapters (outside the Verus subset); Kani did not finish one tuple<u8,u32> through the real generator in 15 min (DESIGN §5)',
  'C02': 'same functions as C01: no contract within reach of Verus/Kani can express the calling convention over all signatures (DESIGN §5)',
@@ -94,8 +100,7 @@ NOT_APPLICABLE = {
  'C34': 'same str machinery as C25 (DESIGN §5)',
 }
 # planned but not built yet: listed as not_applicable until their check exists
-PENDING = {k: 'check not built yet in this session (planned: DESIGN §7)' for k in
-           ['C22']}
+PENDING = {}
 
 def main():
     props = [json.loads(l) for l in open(os.path.join(HERE, 'properties.jsonl'))]
